@@ -506,6 +506,7 @@ type Contract struct {
 	Entry    bool
 	NoFrame  bool
 	LoopInvs []*Clause // invariants of every loop of the function
+	PreOrder []int     // source order of requires (>=0: index into Requires) and lets (<0: -(index+1) into Lets)
 	Opaque    bool // havoc everything reachable (external default)
 }
 
@@ -715,6 +716,7 @@ func parseSpecFile(src, prefix, file string, assumed bool) (*SpecFile, error) {
 			cl := &Clause{Kind: kwBase, Tags: tags, Src: rest, E: e, Name: label, Line: ll.L}
 			switch kwBase {
 			case "requires":
+				cur.PreOrder = append(cur.PreOrder, len(cur.Requires))
 				cur.Requires = append(cur.Requires, cl)
 			case "ensures":
 				cur.Ensures = append(cur.Ensures, cl)
@@ -742,6 +744,7 @@ func parseSpecFile(src, prefix, file string, assumed bool) (*SpecFile, error) {
 			if err != nil {
 				return nil, fail(err)
 			}
+			cur.PreOrder = append(cur.PreOrder, -(len(cur.Lets) + 1))
 			cur.Lets = append(cur.Lets, struct {
 				Name string
 				E    Node
